@@ -26,6 +26,8 @@ type VerifEvilServer struct {
 	ExtraBeforeDone      [][]byte // raw handshake messages sent (and hashed) just before ServerHelloDone
 	ExtraAfterHello      [][]byte // raw handshake messages sent (and hashed) right after ServerHello
 	DoneTwice            bool     // ServerHelloDone sent (and hashed) twice
+	UnsolicitedTicket    bool     // session_ticket extension in the ServerHello and a NewSessionTicket message, whatever the client offered
+	FinishedTrail        []byte   // handshake bytes appended to the Finished message inside its record (not hashed)
 }
 
 func verifXor(v, x []byte) []byte {
@@ -74,7 +76,13 @@ func (c *Conn) verifEvilServerHandshakeGM(k VerifEvilServer) error {
 	}
 	c.clientFinishedIsFirst = true
 	c.buffering = true
-	if err := hs.sendSessionTicket(); err != nil {
+	if k.UnsolicitedTicket {
+		m := &newSessionTicketMsg{ticket: []byte{0xaa, 0xbb, 0xcc}}
+		hs.finishedHash.Write(m.marshal())
+		if _, err := c.writeRecord(recordTypeHandshake, m.marshal()); err != nil {
+			return err
+		}
+	} else if err := hs.sendSessionTicket(); err != nil {
 		return err
 	}
 	if err := hs.verifEvilSendFinished(nil, k); err != nil {
@@ -98,6 +106,9 @@ func (hs *serverHandshakeStateGM) verifEvilFullHandshake(k VerifEvilServer) erro
 	}
 
 	hs.hello.ticketSupported = hs.clientHello.ticketSupported && !c.config.SessionTicketsDisabled
+	if k.UnsolicitedTicket {
+		hs.hello.ticketSupported = true
+	}
 	hs.hello.cipherSuite = hs.suite.id
 
 	hs.finishedHash = newFinishedHashGM(hs.suite)
@@ -308,7 +319,7 @@ func (hs *serverHandshakeStateGM) verifEvilSendFinished(out []byte, k VerifEvilS
 	finished := new(finishedMsg)
 	finished.verifyData = verifXor(hs.finishedHash.serverSum(hs.masterSecret), k.FinishedXor)
 	hs.finishedHash.Write(finished.marshal())
-	if _, err := c.writeRecord(recordTypeHandshake, finished.marshal()); err != nil {
+	if _, err := c.writeRecord(recordTypeHandshake, append(append([]byte{}, finished.marshal()...), k.FinishedTrail...)); err != nil {
 		return err
 	}
 	if k.FinishedBeforeCCS {
@@ -341,6 +352,7 @@ type VerifEvilClient struct {
 	FinishedTwice        bool     // a second (protected) Finished
 	ExtraBeforeCCS       [][]byte // complete handshake messages written (and hashed) before ChangeCipherSpec
 	ExtraAfterCCS        [][]byte // complete handshake messages written (and hashed) after ChangeCipherSpec, protected
+	FinishedTrail        []byte   // handshake bytes appended to the Finished message inside its record (not hashed)
 }
 
 // VerifEvilClientHandshakeK runs the scripted GM client handshake (full handshake only) with the given deviations.
@@ -486,7 +498,7 @@ func (hs *clientHandshakeStateGM) verifEvilSendFinished(out []byte, k VerifEvilC
 
 	finished.verifyData = verifXor(hs.finishedHash.clientSum(hs.masterSecret), k.FinishedXor)
 	hs.finishedHash.Write(finished.marshal())
-	if _, err := c.writeRecord(recordTypeHandshake, finished.marshal()); err != nil {
+	if _, err := c.writeRecord(recordTypeHandshake, append(append([]byte{}, finished.marshal()...), k.FinishedTrail...)); err != nil {
 		return err
 	}
 	copy(out, finished.verifyData)
